@@ -160,6 +160,47 @@ Theorem C04_F_wt_is_instance : forall c m K objs s eps,
   @F_wt ROps c m K objs s eps = F_wt_gen c (@native ROps m s) K (unmasked m) objs s eps.
 Proof. exact F_wt_is_gen. Qed.
 
+(* InversionImagingMapping.curvature_matrix, block (i, j) of the ordered object list: B_i^T N^-1 B_j, plus eps exactly on the
+   diagonal entries of the objects WITHOUT regularization and nowhere else *)
+Theorem C04_curvature_mapping_blocks : forall (c : @convolver ROps) objs n (s : list R) eps i j la lb,
+  (0 < n)%nat -> (forall o, In o objs -> shape n (params o) (opmat c o)) -> (forall k, (k < n)%nat -> nth k s 0 <> 0) ->
+  (i < length objs)%nat -> (j < length objs)%nat -> (la < params (ob objs i))%nat -> (lb < params (ob objs j))%nat ->
+  mget (@F_mapping ROps c objs n s eps) (off objs i + la) (off objs j + lb) =
+  sumR (map (fun k => mget (opmat c (ob objs i)) k la * mget (opmat c (ob objs j)) k lb / (nth k s 0 * nth k s 0)) (seq 0 n))
+  + (if Nat.eqb i j && Nat.eqb la lb && negb (has_reg (ob objs i)) then eps else 0).
+Proof. exact F_mapping_blocks. Qed.
+Theorem C04_curvature_mapping_symmetric : forall (c : @convolver ROps) objs n (s : list R) eps a b,
+  (0 < n)%nat -> (forall o, In o objs -> shape n (params o) (opmat c o)) -> (forall k, (k < n)%nat -> nth k s 0 <> 0) ->
+  (a < tp objs)%nat -> (b < tp objs)%nat ->
+  mget (@F_mapping ROps c objs n s eps) a b = mget (@F_mapping ROps c objs n s eps) b a.
+Proof. exact F_mapping_symmetric. Qed.
+(* no_regularization_index_list is exactly (and once each) the parameters of the objects without regularization *)
+Theorem C04_no_regularization_index_list : forall objs a,
+  NoDup (@noreg_index_list ROps objs) /\
+  (In a (@noreg_index_list ROps objs) <->
+   exists k la, (k < length objs)%nat /\ (la < params (ob objs k))%nat /\ has_reg (ob objs k) = false /\ a = (off objs k + la)%nat).
+Proof. intros objs a. split; [apply noreg_NoDup | apply noreg_In]. Qed.
+(* InversionImagingMapping.data_vector, block i: B_i^T N^-1 d *)
+Theorem C04_data_vector_mapping_blocks : forall (c : @convolver ROps) objs (d s : list R) n i la,
+  length d = n -> (0 < n)%nat -> (forall o, In o objs -> shape n (params o) (opmat c o)) -> (i < length objs)%nat -> (la < params (ob objs i))%nat ->
+  nth (off objs i + la) (@D_mapping ROps c objs d s) 0 =
+  sumR (map (fun k => nth k d 0 * mget (opmat c (ob objs i)) k la / (nth k s 0 * nth k s 0)) (seq 0 n)).
+Proof. exact D_mapping_blocks. Qed.
+(* the w-tilde data vector of a mapper is the same block, given w_tilde_data = C^T N^-1 d
+   (_partial: [wd_is_adjoint] for w_tilde_data_imaging_from and the three-branch assembly are correspondence-only) *)
+Theorem C04_wtilde_data_vector_block_partial : forall (c : @convolver ROps) (d s wd : list R) e P n p,
+  length wd = n -> wd_is_adjoint c d s wd n -> enc_ok e P -> (p < P)%nat ->
+  nth p (@dv_wtd ROps wd e P) 0 = sumR (map (fun i => nth i d 0 * Bm e c n i p / (nth i s 0 * nth i s 0)) (seq 0 n)).
+Proof. exact wt_data_vector_block. Qed.
+(* the w-tilde curvature matrix is symmetric (same hypotheses as C04_curvature_wtilde_eq_mapping_partial) *)
+Theorem C04_curvature_wtilde_symmetric_partial : forall (c : @convolver ROps) noise K nfs objs (s : list R) eps a b,
+  let n := length nfs in
+  (0 < n)%nat -> frames_ok c n -> (forall i, (i < n)%nat -> nth i s 0 <> 0) ->
+  W_is_overlap c s (@wt_dense ROps noise K nfs) n -> (forall o, In o objs -> wf_obj c n o) ->
+  (a < tp objs)%nat -> (b < tp objs)%nat ->
+  mget (F_wt_gen c noise K nfs objs s eps) a b = mget (F_wt_gen c noise K nfs objs s eps) b a.
+Proof. exact F_wt_symmetric. Qed.
+
 (* ------------------------------------------------------------------ non-vacuity of the hypothesis sets *)
 (* hypotheses of C04_curvature_is_BT_Ninv_B: a 2x2 signed matrix, two different noise values, one unregularized parameter *)
 Example ex_curv_hyps :
@@ -238,3 +279,9 @@ Print Assumptions C04_operated_matrix_blocks_follow_object_order.
 Print Assumptions C04_wtilde_mirrored_is_normal_equations_partial.
 Print Assumptions C04_curvature_wtilde_eq_mapping_partial.
 Print Assumptions C04_F_wt_is_instance.
+Print Assumptions C04_curvature_mapping_blocks.
+Print Assumptions C04_curvature_mapping_symmetric.
+Print Assumptions C04_no_regularization_index_list.
+Print Assumptions C04_data_vector_mapping_blocks.
+Print Assumptions C04_wtilde_data_vector_block_partial.
+Print Assumptions C04_curvature_wtilde_symmetric_partial.
